@@ -19,6 +19,31 @@ def run(tier, seed):
         sysm = FogSys(seed=seed, **kw)
         res = explore(sysm, state_cap=300000)
         rep.add_bfs(f"fog nibbles={kw['nibbles']} depth={kw['depth']}", res, sysm)
+    # boundary probes: fogs whose unexplored prefixes are long (serialisation packs them with the hex-prefix encoding)
+    sysm = FogSys(seed=seed, nibbles=(0, 7, 15), depth=2, mark_sizes=1)
+    evals = nv = 0
+    for L in (31, 32, 33, 63, 64, 65, 127, 128, 129, 255, 256, 257, 300):
+        a = tuple((1, 2, 15)[i % 3] for i in range(L))
+        b = tuple((1, 2, 15)[i % 3] for i in range(L - 1)) + (0,)
+        c = (15,) * (L + 1)
+        snap = tuple(sorted({a, b, c}))
+        sysm.queries = [a, b, c, a[:-1], a + (0,), a + (15, 3), b + (15, 15), c[:-2], (0,), (15,), ()]
+        sysm.depth = L + 2
+        found = list(sysm.state_check(snap, None))
+        for ev in (("explore", a, ((0,), (15,)), True), ("explore", a, ((0,), (0, 1)), False), ("explore", b, (), True), ("mark", (a, c), True),
+                   ("explore", a + (1,), ((0,),), False)):
+            st = sysm.step(snap, None, ev)
+            found += st.viols
+            if st.snap is not None and st.snap != snap:
+                found += sysm.state_check(st.snap, None)
+            evals += 1
+        evals += 1
+        for v in found:
+            v = dict(v)
+            v["hist"] = [("init", 0), ("explore", (), snap, True)]
+            rep.add_violation(v, sysm.describe())
+            nv += 1
+    rep.add_part(name="boundary probes: fogs with unexplored prefixes of 31..300 nibbles", evaluations=evals, violations=nv)
     return rep
 
 
